@@ -174,7 +174,15 @@ class Runner:
                 a = forms[step[1] % len(forms)]
                 b = forms[step[2] % len(forms)]
                 try:
-                    got = self.model.evaluate([a, b])
+                    # a list, a tuple or a generator of addresses
+                    form = (step[1] + step[2]) % 3
+                    addrs = [a, b] if form == 0 else (a, b) if form == 1 \
+                        else (x for x in (a, b))
+                    got = self.model.evaluate(addrs)
+                    if len(got) != 2:
+                        self.fail(a, 'evaluate-list:' + ['list', 'tuple',
+                                  'generator'][form], got, [a, b])
+                        continue
                     want = [models.safe_eval(self.oracle(), x) for x in (a, b)]
                     for x, g, w in zip((a, b), got, want):
                         self.last_seen[x] = w
